@@ -137,6 +137,8 @@ def run_cases(ctx, with_model=True, stop_first=False):
     ]
     # the same kind of problem on a device stated in nm: the kernel weights carry a length
     cfgs.append(dict(dev="ring", tol=1e-3, a=0.3, b=0.6, B=0.5, units="nm"))
+    # the boundary value of the drag (no momentum: plain under-relaxed fixed-point iteration)
+    cfgs.append(dict(dev="ring", tol=1e-3, a=0.5, b=1.0, B=0.6))
     if not ctx.quick:
         cfgs += [dict(dev="ring", tol=1e-4, a=0.1, b=0.5, B=0.8), dict(dev="union", tol=1e-3, a=0.5, b=1.0, B=0.6), dict(dev="bar", tol=1e-2, a=1.0, b=1.0, B=0.3, cur={"source": 3.0, "drain": -3.0})]
     # history: a second screened solve on a copy that SHARES the mesh object, with other material constants
